@@ -623,13 +623,30 @@ class Loader:
         fn = ast.FunctionDef(name=fname, args=ast.arguments(posonlyargs=[], args=[ast.arg(arg=a) for a in params], vararg=None, kwonlyargs=[],
                                                             kw_defaults=[], kwarg=None, defaults=[]),
                              body=stmts + [ret], decorator_list=[], returns=None, type_comment=None, type_params=[])
+        fn_plain0 = copy.deepcopy(fn)
         mod = ast.Module(body=[fn], type_ignores=[])
         text = "\n".join(ast.unparse(st) for st in stmts)
         mod = _Instrument().visit(mod)
         ast.fix_missing_locations(mod)
+        plain_src = ast.unparse(ast.fix_missing_locations(copy.deepcopy(ast.Module(body=[copy.deepcopy(fn)], type_ignores=[])))) if False else None
         ns = {}
+        fn_plain = fn_plain0
         exec(compile(mod, self._path(modname)[0], "exec"), glob, ns)
-        return ns[fname], params, text, hashlib.sha256(text.encode()).hexdigest()[:16]
+        out_fn = ns[fname]
+        try:      # the same statements, uninstrumented, in the really imported module (reference of the concretisation cross-check)
+            import importlib
+            import sys as _sys
+            if self.repo not in _sys.path:
+                _sys.path.insert(0, self.repo)
+            real_mod = importlib.import_module(modname)
+            m2 = ast.Module(body=[fn_plain], type_ignores=[])
+            ast.fix_missing_locations(m2)
+            ns2 = {}
+            exec(compile(m2, self._path(modname)[0], "exec"), real_mod.__dict__, ns2)
+            out_fn.cpython = ns2[fname]
+        except Exception:  # noqa: BLE001
+            out_fn.cpython = None
+        return out_fn, params, text, hashlib.sha256(text.encode()).hexdigest()[:16]
 
     # ---------------------------------------------------------------- lookup
     def cls(self, dotted):
